@@ -55,12 +55,16 @@ resources:
           - actor
 `
 
-func c10SDL(policyID string, indexed bool) string {
+func c10SDL(policyID string, indexed, branchable bool) string {
 	ix := ""
 	if indexed {
 		ix = " @index"
 	}
-	return fmt.Sprintf(`type User @policy(id: %q, resource: "users") {
+	br := ""
+	if branchable {
+		br = " @branchable"
+	}
+	return fmt.Sprintf(`type User`+br+` @policy(id: %q, resource: "users") {
   name: String%s
   age: Int%s
   score: Float
@@ -73,6 +77,7 @@ func genC10(seed int64, tier string) *Plan {
 	r := newRng(seed, 10)
 	p := &Plan{Prop: "C10", Engine: "E5", Seed: seed, Cfg: map[string]int{}}
 	p.Cfg["indexed"] = r.IntN(2)
+	p.Cfg["branchable"] = pick(r, []int{0, 0, 0, 1})
 	n := 6 + r.IntN(25)
 	if tier == "quick" {
 		n = 6 + r.IntN(14)
@@ -194,7 +199,7 @@ func runC10(p *Plan, res *Result) {
 			res.HarnessErr = "policy: " + err.Error()
 			return nd, acp, "", false
 		}
-		if _, err := nd.DB.AddSchema(nd.ctx, c10SDL(pr.PolicyID, p.cfg("indexed", 0) == 1)); err != nil {
+		if _, err := nd.DB.AddSchema(nd.ctx, c10SDL(pr.PolicyID, p.cfg("indexed", 0) == 1, p.cfg("branchable", 0) == 1)); err != nil {
 			res.HarnessErr = "schema: " + err.Error()
 			return nd, acp, "", false
 		}
@@ -431,6 +436,13 @@ func (r *c10Run) requests(hiddenLive []string) []c10Req {
 		{"query { User(groupBy: [team]) { team _count(_group: {}) _group { name } } }", "User", "group"},
 		{"query { commits { cid docID fieldName height } }", "commits", "commits"},
 		{"query { commits(order: {height: DESC}, limit: 3) { docID height } }", "commits", "commits-order-limit"},
+	}
+	if r.p.cfg("branchable", 0) == 1 {
+		for k := range reqs {
+			if strings.HasPrefix(reqs[k].tag, "commits") {
+				reqs[k].tag += "@branchable"
+			}
+		}
 	}
 	for _, id := range hiddenLive {
 		reqs = append(reqs,
